@@ -359,7 +359,8 @@ SPEC = PropSpec(
                  "IEEE-754 binary16/32/64 in both byte orders and both encoding spellings x offsets x {0, -0, 1, -2.5, "
                  "inf, -inf, NaN, smallest subnormal, largest finite, an inexact value}; MIL-STD-1750A for twelve words "
                  "covering sign/exponent extremes in both byte orders; the sizes the constructor admits; and the "
-                 "structural struct-code table (8*calcsize(code) = size). IEEE bit-exactness itself is struct's."),
+                 "structural struct-code table (8*calcsize(code) = size). IEEE bit-exactness itself is struct's."
+                 ' Also the spelling twosCompliment and integers whose declared context calibrators do not apply (they stay integers).'),
     rule_doc="R4.int per (encoding, byte order) over widths x offsets x patterns; R4.float per (format, byte order, spelling); R4.tab per table row",
     assumptions=["struct.unpack implements IEEE-754 binary16/32/64", "MIL-STD-1750A: value = mantissa/2**23 * 2**exponent, both two's complement",
                  "cursor reads are exact (C03)"],
